@@ -11,7 +11,12 @@ use std::fmt;
 use std::fmt::{Debug, Formatter};
 use std::io::{Cursor, Read, Seek, SeekFrom, Write};
 use std::mem::swap;
-use std::sync::{Arc, RwLock};
+use std::sync::Arc;
+#[cfg(not(manuel_woelker_rust_vfs_verif))]
+use std::sync::RwLock;
+// verification builds: same API, yields to an installed schedule before every acquisition
+#[cfg(manuel_woelker_rust_vfs_verif)]
+use crate::verif_hooks::RwLock;
 use std::time::SystemTime;
 
 type MemoryFsHandle = Arc<RwLock<MemoryFsImpl>>;
@@ -63,8 +68,6 @@ impl Write for WritableFile {
         self.content.flush()?;
         let mut content = self.content.get_ref().clone();
         swap(&mut content, self.content.get_mut());
-        #[cfg(manuel_woelker_rust_vfs_verif)]
-        crate::verif_hooks::yield_point("memory");
         let mut handle = self.fs.write().unwrap();
         let previous_file = handle.files.get(&self.destination);
 
@@ -152,8 +155,6 @@ impl Seek for ReadableFile {
 impl FileSystem for MemoryFS {
     fn read_dir(&self, path: &str) -> VfsResult<Box<dyn Iterator<Item = String> + Send>> {
         let prefix = format!("{}/", path);
-        #[cfg(manuel_woelker_rust_vfs_verif)]
-        crate::verif_hooks::yield_point("memory");
         let handle = self.handle.read().unwrap();
         if let Some(file) = handle.files.get(path) {
             if file.file_type != VfsFileType::Directory {
@@ -185,8 +186,6 @@ impl FileSystem for MemoryFS {
     }
 
     fn create_dir(&self, path: &str) -> VfsResult<()> {
-        #[cfg(manuel_woelker_rust_vfs_verif)]
-        crate::verif_hooks::yield_point("memory");
         let mut handle = self.handle.write().unwrap();
         handle.ensure_has_parent(path)?;
         let map = &mut handle.files;
@@ -217,8 +216,6 @@ impl FileSystem for MemoryFS {
     fn open_file(&self, path: &str) -> VfsResult<Box<dyn SeekAndRead + Send>> {
         self.set_access_time(path, SystemTime::now())?;
 
-        #[cfg(manuel_woelker_rust_vfs_verif)]
-        crate::verif_hooks::yield_point("memory");
         let handle = self.handle.read().unwrap();
         let file = handle.files.get(path).ok_or(VfsErrorKind::FileNotFound)?;
         ensure_file(file)?;
@@ -231,8 +228,6 @@ impl FileSystem for MemoryFS {
     fn create_file(&self, path: &str) -> VfsResult<Box<dyn SeekAndWrite + Send>> {
         let content = Arc::new(Vec::<u8>::new());
         {
-            #[cfg(manuel_woelker_rust_vfs_verif)]
-            crate::verif_hooks::yield_point("memory");
             let mut handle = self.handle.write().unwrap();
             handle.ensure_has_parent(path)?;
             if let Some(file) = handle.files.get(path) {
@@ -258,8 +253,6 @@ impl FileSystem for MemoryFS {
     }
 
     fn append_file(&self, path: &str) -> VfsResult<Box<dyn SeekAndWrite + Send>> {
-        #[cfg(manuel_woelker_rust_vfs_verif)]
-        crate::verif_hooks::yield_point("memory");
         let handle = self.handle.write().unwrap();
         let file = handle.files.get(path).ok_or(VfsErrorKind::FileNotFound)?;
         ensure_file(file)?;
@@ -274,8 +267,6 @@ impl FileSystem for MemoryFS {
     }
 
     fn metadata(&self, path: &str) -> VfsResult<VfsMetadata> {
-        #[cfg(manuel_woelker_rust_vfs_verif)]
-        crate::verif_hooks::yield_point("memory");
         let guard = self.handle.read().unwrap();
         let files = &guard.files;
         let file = files.get(path).ok_or(VfsErrorKind::FileNotFound)?;
@@ -289,8 +280,6 @@ impl FileSystem for MemoryFS {
     }
 
     fn set_creation_time(&self, path: &str, time: SystemTime) -> VfsResult<()> {
-        #[cfg(manuel_woelker_rust_vfs_verif)]
-        crate::verif_hooks::yield_point("memory");
         let mut guard = self.handle.write().unwrap();
         let files = &mut guard.files;
         let file = files.get_mut(path).ok_or(VfsErrorKind::FileNotFound)?;
@@ -301,8 +290,6 @@ impl FileSystem for MemoryFS {
     }
 
     fn set_modification_time(&self, path: &str, time: SystemTime) -> VfsResult<()> {
-        #[cfg(manuel_woelker_rust_vfs_verif)]
-        crate::verif_hooks::yield_point("memory");
         let mut guard = self.handle.write().unwrap();
         let files = &mut guard.files;
         let file = files.get_mut(path).ok_or(VfsErrorKind::FileNotFound)?;
@@ -313,8 +300,6 @@ impl FileSystem for MemoryFS {
     }
 
     fn set_access_time(&self, path: &str, time: SystemTime) -> VfsResult<()> {
-        #[cfg(manuel_woelker_rust_vfs_verif)]
-        crate::verif_hooks::yield_point("memory");
         let mut guard = self.handle.write().unwrap();
         let files = &mut guard.files;
         let file = files.get_mut(path).ok_or(VfsErrorKind::FileNotFound)?;
@@ -325,14 +310,10 @@ impl FileSystem for MemoryFS {
     }
 
     fn exists(&self, path: &str) -> VfsResult<bool> {
-        #[cfg(manuel_woelker_rust_vfs_verif)]
-        crate::verif_hooks::yield_point("memory");
         Ok(self.handle.read().unwrap().files.contains_key(path))
     }
 
     fn remove_file(&self, path: &str) -> VfsResult<()> {
-        #[cfg(manuel_woelker_rust_vfs_verif)]
-        crate::verif_hooks::yield_point("memory");
         let mut handle = self.handle.write().unwrap();
         let file = handle.files.get(path).ok_or(VfsErrorKind::FileNotFound)?;
         ensure_file(file)?;
@@ -344,8 +325,6 @@ impl FileSystem for MemoryFS {
     }
 
     fn remove_dir(&self, path: &str) -> VfsResult<()> {
-        #[cfg(manuel_woelker_rust_vfs_verif)]
-        crate::verif_hooks::yield_point("memory");
         let mut handle = self.handle.write().unwrap();
         let file = handle.files.get(path).ok_or(VfsErrorKind::FileNotFound)?;
         if file.file_type != VfsFileType::Directory {
